@@ -5,9 +5,13 @@
 //
 // A job is {"seed":n,"ninst":k,"steps":[{"op":"Cfg",...},{"op":"New"|"Create"|"Merge"|"MkProv"|"Emit"|"Read",...}]}
 // in the vocabulary of spec/ResourceEnv.tla; an input line is a job or {"batch":[jobs with the same Cfg]}.
-// Every batch runs in a forked child of its own (Resource::Create caches the environment in a
-// function-local static; UBSan kills the process on signed overflow, after which the remaining jobs go
-// to a fresh child).  The child
+// Every batch runs in a forked child of its own whose environment is set before the first SDK call and
+// never touched afterwards (so it does not matter WHEN Resource::Create reads it - once, cached, or on
+// every call; UBSan kills the process on signed overflow, after which the remaining jobs go to a fresh
+// child).  The givens of the SDK build that the statement does not pin are OBSERVED, not assumed: every
+// history starts with a Cfg event carrying the projection of Resource::GetDefault() (attributes and
+// schema URL), of Resource::GetEmpty() and the schema URL of OTELResourceDetector().Detect(); the spec
+// applies the Merge / Create rules to what was observed.  The child
 // performs each step on the REAL classes through their public interface and writes one ndjson event
 // per call with the observable projection; the parent adds the event for a call that killed the child.
 // The log is validated by spec/ResourceEnvTrace.tla - nothing is decided here.
@@ -15,7 +19,9 @@
 // Concretisation table (abstract -> concrete), part of the trusted base:
 //   values   s1..s6 strings (salted per job), s_empty "", i1 int64 42, i2 int64 -7, n1 int32 5, u1 uint32 7,
 //            q1 uint64 2^40, b1 true, b0 false, d1 0.5, vs1 {"a","b"}, vi1 {1,2,3}, vb1 {true,false}, vd1 {0.25},
-//            dflt_lang "cpp", dflt_name "opentelemetry", dflt_ver OPENTELEMETRY_SDK_VERSION
+//            dflt_lang "cpp", dflt_name "opentelemetry", dflt_ver OPENTELEMETRY_SDK_VERSION (mere names for
+//            three more strings - e.g. a caller value equal to a default; the spec does NOT expect the
+//            default resource to have them)
 //            (projection: the name of the equal table entry; any other string "=<text>", else "?")
 //   urls     "" , u1, u2 (two schema URLs)
 //   strings  pre: none "" | blank " " "\t" "  " "\n " | plus "+" | minus "-"
@@ -59,6 +65,7 @@
 #include "opentelemetry/sdk/metrics/metric_reader.h"
 #include "opentelemetry/sdk/metrics/provider.h"
 #include "opentelemetry/sdk/resource/resource.h"
+#include "opentelemetry/sdk/resource/resource_detector.h"
 #include "opentelemetry/sdk/trace/exporter.h"
 #include "opentelemetry/sdk/trace/provider.h"
 #include "opentelemetry/sdk/trace/simple_processor.h"
@@ -732,7 +739,9 @@ static void run_steps(const json &job, size_t jn, const Tables &tab, const Env &
       a.push_back(project(tab, *pool[i]));
     return a;
   };
-  emit(out, json{{"e", "Cfg"}, {"toks", env.toks}, {"svc", env.svc}, {"pool", pool_json()}, {"ora", env.ora},
+  // the givens of this SDK build, as found in this process (see the head comment)
+  std::string envurl = tab.url_name(sdkr::OTELResourceDetector().Detect().GetSchemaURL());
+  emit(out, json{{"e", "Cfg"}, {"toks", env.toks}, {"svc", env.svc}, {"pool", pool_json()}, {"envurl", envurl}, {"ora", env.ora},
                  {"seed", std::to_string(seed)}, {"job", job.value("id", -1)}});
 
   size_t since_audit = 0;
@@ -911,7 +920,7 @@ static void run_steps(const json &job, size_t jn, const Tables &tab, const Env &
 }
 
 // The child: one process = one environment.  All jobs of a batch have the same Cfg step, so they can
-// share the process (Resource::Create reads the environment once per process); every job starts a new
+// share the process (the environment stays as set here for the life of the process); every job starts a new
 // history (new Cfg event, fresh pool).
 [[noreturn]] static void child_main(const json &batch, size_t from_job, size_t from_step, int from_inst, FILE *out)
 {
@@ -1087,7 +1096,7 @@ static void run_batch(const json &batch)
       continue;
     }
     if (first_cfg)
-      puts(dumps(json{{"e", "Cfg"}, {"toks", json::array()}, {"svc", json{{"c", "unset"}, {"v", "-"}}}, {"pool", json::array()},
+      puts(dumps(json{{"e", "Cfg"}, {"toks", json::array()}, {"svc", json{{"c", "unset"}, {"v", "-"}}}, {"pool", json::array()}, {"envurl", ""},
                       {"job", batch[cur].value("id", -1)}, {"note", "the process died before its first event"}})
                .c_str());
     json ev = {{"e", "Crash"}, {"during", lastpre}, {"status", st}, {"stderr", tail}};
